@@ -503,6 +503,9 @@ fn main() {
                             let amt = if r.gen_bool(0.6) { amt.max(1) } else { amt };
                             // exactly i128::MAX (8 units) is a popular "unlimited" allowance
                             let amt = if regime == "O" { if r.gen_bool(0.3) { 8 } else { amt.min(7) } } else { amt };
+                            // one approval in eight is a revocation (amount 0), with an expiry that does not matter to the base
+                            // token - none, long past, just past, now: every gate in front of it must still apply
+                            let (amt, du) = if r.gen_ratio(1, 8) { (0, *pick(&mut r, &[-1i64, -1, -5, 0, -(now + k) + 1, -(now + k)])) } else { (amt, du) };
                             json!({"op": "approve", "from": from, "to": "none", "sp": sp, "amt": amt, "until": if r.gen_ratio(1, 30) { i32::MAX as i64 } else { (now + k + du).max(0) }, "auth": auth, "k": k})
                         }
                         "burn" => {
